@@ -525,12 +525,22 @@ def block_top(lines, v):
 @lemma(props=["C04"], types=dict(l1=Str, l2=Str, l3=Str, v=ViolationT), name="block-after-violation-changes-nothing")
 def block_after_violation(l1, l2, l3, v):
     """Property text: a directive placed outside the scope changes nothing -- a block that starts AFTER the violation
-    line does not silence it. Stated on the smallest shape (violation on line 1 of a three-line file).
-    Expected to FAIL (known finding C04-block-silences-earlier-lines)."""
+    line does not silence it. Stated on the smallest shape (violation on line 1 of a three-line file) as the three
+    scanner steps _check_block_ignore performs (no sequence reasoning, so that the solver finds the counterexample
+    reliably). Expected to FAIL (known finding C04-block-silences-earlier-lines)."""
     if v.line != 1 or is_start(l1) or is_end(l1):
         return True
-    reveal(block_ignores, [l1, l2, l3], v.line, v.rule_id)
-    return not call(IG + "_check_block_ignore", [l1, l2, l3], v)
+    st = mk(BlockStateT, in_block=False, rules=[])
+    r1 = call(IG + "_process_block_line", l1, 1, v, st)
+    if r1 is not None:
+        return not r1
+    r2 = call(IG + "_process_block_line", l2, 2, v, st)
+    if r2 is not None:
+        return not r2
+    r3 = call(IG + "_process_block_line", l3, 3, v, st)
+    if r3 is not None:
+        return not r3
+    return True
 
 
 @lemma(props=["C04"], types=dict(l1=Str, l2=Str, l3=Str, v=ViolationT), name="block-after-violation-adjusted")
